@@ -95,6 +95,33 @@ def _strip_doc(body):
     return body
 
 
+def _fold_early_returns(body):
+    """Procedures only:  ``if C: ...; return`` followed by REST becomes
+    ``if C: ... else: REST`` so that the body has no return in the middle."""
+    if any(isinstance(x, ast.Return) and x.value is not None and not (
+            isinstance(x.value, ast.Constant) and x.value.value is None)
+            for st in body for x in ast.walk(st)):
+        return body
+    for i, st in enumerate(body):
+        if isinstance(st, ast.If) and not st.orelse and st.body and \
+                isinstance(st.body[-1], ast.Return) and not any(
+                    isinstance(x, ast.Return) for s2 in st.body[:-1]
+                    for x in ast.walk(s2)):
+            rest = _fold_early_returns(body[i + 1:])
+            if not rest:
+                return body[:i] + [ast.If(test=st.test,
+                                          body=st.body[:-1] or [ast.Pass()],
+                                          orelse=[])]
+            new = ast.If(test=st.test, body=st.body[:-1] or [ast.Pass()],
+                         orelse=rest)
+            ast.copy_location(new, st)
+            ast.fix_missing_locations(new)
+            return body[:i] + [new]
+    if body and isinstance(body[-1], ast.Return):
+        return body[:-1] or [ast.Pass()]
+    return body
+
+
 class Helper:
     def __init__(self, q, node, owner):
         self.q = q
@@ -112,7 +139,7 @@ class Helper:
             if d is not None:
                 self.defaults[arg.arg] = d
         self.is_method = owner[0] == "class"
-        self.body = _strip_doc(node.body)
+        self.body = _fold_early_returns(_strip_doc(node.body))
         self.expr = None       # expression helpers
         self.stmts = None      # statement helpers: (stmts, return expr|None)
         self.ok = self._classify()
@@ -149,7 +176,8 @@ class Helper:
         if not body:
             self.stmts = ([], None)
             return True
-        rets = [x for x in ast.walk(n) if isinstance(x, ast.Return)]
+        rets = [x for st in body for x in ast.walk(st)
+                if isinstance(x, ast.Return)]
         # expression helper:  return EXPR   |   if C: return A [else:]
         # return B
         e = self._as_expr(body)
